@@ -42,6 +42,7 @@ type spec struct {
 	stopBlocks                              bool
 	exit                                    string // "sig" | "free" | "never"
 	heldRun, heldStop, heldReload, heldSub  bool
+	heldPoll                                bool
 	neverReady                              bool
 }
 
@@ -60,7 +61,7 @@ type scn struct {
 	rec      *director.Recorder
 	ph       *director.ParkHandler
 	sup      *supervisor.PIDZero
-	pcancel  context.CancelFunc
+	pcancel  func()
 	startupShort, shutdownShort bool
 
 	mu       sync.Mutex
@@ -77,6 +78,31 @@ type scn struct {
 	readySet []bool
 	stopReleased, runReleased []bool
 	out      *bufio.Writer
+}
+
+// envCtx is the parent context of the supervisor: the director ends it either like a cancel() or
+// like an expired deadline (Err() = DeadlineExceeded).
+type envCtx struct {
+	done chan struct{}
+	mu   sync.Mutex
+	err  error
+}
+
+func (e *envCtx) Deadline() (time.Time, bool) { return time.Time{}, false }
+func (e *envCtx) Done() <-chan struct{}       { return e.done }
+func (e *envCtx) Value(any) any               { return nil }
+func (e *envCtx) Err() error {
+	e.mu.Lock()
+	defer e.mu.Unlock()
+	return e.err
+}
+func (e *envCtx) end(err error) {
+	e.mu.Lock()
+	if e.err == nil {
+		e.err = err
+		close(e.done)
+	}
+	e.mu.Unlock()
 }
 
 type customErr struct{ inner error }
@@ -160,6 +186,7 @@ func (s *scn) genSpecs() {
 		sp.heldStop = s.r.Chance(1, 4)
 		sp.heldReload = sp.reloadable && s.r.Chance(1, 3)
 		sp.heldSub = sp.stateable && s.r.Chance(1, 4)
+		sp.heldPoll = sp.stateable && s.r.Chance(1, 4)
 	}
 	switch s.family {
 	case "startup":
@@ -218,11 +245,18 @@ func (s *scn) build() error {
 		c := supmock.NewCore(i, s.rec)
 		c.Stateable, c.Reloadable, c.RSender, c.SSender = sp.stateable, sp.reloadable, sp.rsender, sp.ssender
 		c.StopBlocks, c.HeldRun, c.HeldStop, c.HeldReload, c.HeldSub = sp.stopBlocks, sp.heldRun, sp.heldStop, sp.heldReload, sp.heldSub
+		c.HeldPoll = sp.heldPoll
 		s.cores = append(s.cores, c)
 		rs = append(rs, supmock.Wrap(c))
 	}
-	pctx, pc := context.WithCancel(context.Background())
-	s.pcancel = pc
+	pctx := &envCtx{done: make(chan struct{})}
+	s.pcancel = func() {
+		if s.r.Chance(1, 2) {
+			pctx.end(context.Canceled)
+		} else {
+			pctx.end(context.DeadlineExceeded)
+		}
+	}
 	su, sd := time.Hour, time.Hour
 	if s.startupShort {
 		su = 60 * time.Millisecond
@@ -383,6 +417,23 @@ func (s *scn) candidates(phase string) []action {
 		stopCalled := seen[fmt.Sprintf("StopCall %d", i)]
 		if sp.stateable && inRun && !s.readySet[i] && !sp.neverReady {
 			add(fmt.Sprintf("Ready %d", i), 6, func() { s.readySet[i] = true; c.SetReady(true) })
+		}
+		if sp.heldPoll && c.PollPending.Load() {
+			w := 8
+			add(fmt.Sprintf("PollAnswer %d", i), w, func() {
+				ans := s.readySet[i] || (phase == "drain")
+				if !ans && !sp.neverReady && s.r.Chance(1, 3) {
+					ans = true
+					s.readySet[i] = true
+				}
+				select {
+				case c.PollRelease <- ans:
+				case <-time.After(50 * time.Millisecond):
+				}
+			})
+		}
+		if sp.stateable && s.readySet[i] && !sp.heldPoll && phase == "steady" {
+			add(fmt.Sprintf("Unready %d", i), 1, func() { s.readySet[i] = false; c.SetReady(false) })
 		}
 		if sp.stateable && phase != "drain" {
 			add(fmt.Sprintf("Emit %d", i), 3, func() {
@@ -621,7 +672,7 @@ func (s *scn) run() {
 		did := false
 		for _, a := range as {
 			switch strings.Fields(a.name)[0] {
-			case "RunRet", "StopRelease", "ReloadRelease", "Ready", "SubRelease":
+			case "RunRet", "StopRelease", "ReloadRelease", "Ready", "SubRelease", "PollAnswer":
 				a.f()
 				did = true
 			}
